@@ -24,6 +24,10 @@ Acts(s) ==
     \* ... or omits one of operator / contract / function / argument list
     \cup {[name |-> "Execute", op |-> o, target |-> "p1", fn |-> "echo", arg |-> "u32", auth |-> {}, scopedAuth |-> {o}, keepArgs |-> ks] :
             o \in Ops, ks \in ProperKeeps(4)}
+    \* a target function that takes NO argument (an implementation that forwards with an empty argument list is
+    \* indistinguishable from "refuses everything" unless some accepted call has none)
+    \cup UNION {{[name |-> "Execute", op |-> o, target |-> t, fn |-> "ping", arg |-> "unit", auth |-> au] :
+            t \in {"p1", "p2"}, au \in {{o}, {}}} : o \in Ops}
     \cup {[name |-> "TransferOwnership", new |-> n, auth |-> {s.owner}] : n \in {"owner0", "carol"}}
 
 Init == st = [ops |-> [x \in Accts |-> "never"], owner |-> "owner0"]
